@@ -42,10 +42,12 @@ def get_inherited(t: Type) -> Type:
         return Any  # type: ignore
 
     g_args = get_args(t)
-    if len(g_args) > 0:
+    if len(g_args) > 0 and get_origin(r) is not None:
         # The arguments of `t` belong to the type variables of `t`'s own class, in the order
         # the class declares them - which need not be the order (or number) the base uses.
-        t_parameters = getattr(get_origin(t), "__parameters__", r.__parameters__)
+        t_parameters = getattr(get_origin(t), "__parameters__", None)
+        if t_parameters is None:
+            t_parameters = r.__parameters__
         mapping = {a.__name__: v for a, v in zip(t_parameters, g_args)}
 
         r_base = get_origin(r)
